@@ -130,6 +130,22 @@ CLAIMS = {
         'note': 'struct is trusted for value-level round trips; these rules decide the layout agreement for all values at once.',
         'technique': 'writer/reader pair table + sibling transformation comparison via value propagation (static)',
     },
+    'C01': {
+        'text': 'Layout conformance for all classes and all values at once: the decoder tables are const-evaluated and checked for '
+                'exhaustiveness / injectivity / subclassing; the writer summary of every encode() (field order, widths, endianness, '
+                'byte-count expressions, bit lists through pack_bitstring, repeats) is compared with a spec-derived layout table; the '
+                'reader summary of every decode() (offset, width, target attribute, loop start/stride/iteration count) is compared '
+                'with the same table; dispatch dataflow of both _helper functions. Five genuine defects are known findings.',
+        'note': 'pack_bitstring/unpack_bitstring arithmetic and struct are trusted; value ranges are not decided. The MEI object list is decided by C20.',
+        'technique': 'abstract interpretation to wire-layout summaries compared with frozen spec tables; constant folding of decoder tables (static)',
+    },
+    'C02': {
+        'text': 'Writer/reader agreement computed directly between each encode() summary and the matching decode() summary (independent '
+                'of the spec table), purity of encode (no attribute modified in place without a reset in the same call), decode not '
+                'accumulating, and losslessness of re-classing by sub-function code (no constructor-only state read after the swap).',
+        'note': 'struct trusted for value equality. Five genuine defects are known findings (four asymmetric pairs, one accumulation pinned by a test).',
+        'technique': 'writer/reader layout-summary comparison + reaching-definition style purity rule (static)',
+    },
 }
 
 _PENDING = 'check not built yet in this revision (planned, see DESIGN.md §2)'
